@@ -33,6 +33,7 @@ const (
 	VOpaque // a non-nil value whose content is irrelevant (error objects)
 	VList   // an immutable table (package-level composite literal of constants)
 	VStruct // an immutable record inside such a table (fields in F)
+	VUnk    // an unknown scalar (scanner positions, raw input): arithmetic yields unknown, any test on it is undecided
 )
 
 type Val struct {
@@ -60,6 +61,8 @@ func (v Val) String() string {
 		return "nil"
 	case VOpaque:
 		return "<" + v.S + ">"
+	case VUnk:
+		return "<unknown>"
 	case VTuple:
 		s := "("
 		for i, t := range v.T {
@@ -672,6 +675,13 @@ func (e *cEnv) binop(op token.Token, a, b Val, t types.Type, at ast.Node) (Val, 
 			return vBool(c >= 0), nil
 		}
 	}
+	if a.K == VUnk || b.K == VUnk {
+		switch op {
+		case token.ADD, token.SUB, token.MUL, token.AND, token.OR, token.XOR, token.AND_NOT, token.SHL, token.SHR:
+			return Val{K: VUnk}, nil
+		}
+		return Val{}, undecidedf(at, "operator %s on an unknown value", op)
+	}
 	if a.K == VInt && b.K == VInt {
 		var r int64
 		switch op {
@@ -927,6 +937,10 @@ func (e *cEnv) eval(x ast.Expr) (Val, error) {
 		if err != nil {
 			return Val{}, err
 		}
+		if a.K == VUnk || (i.K == VUnk && a.K == VStr) {
+			// a byte of the raw input
+			return Val{K: VUnk}, nil
+		}
 		if i.K != VInt {
 			return Val{}, undecidedf(x, "non-integer index")
 		}
@@ -947,6 +961,9 @@ func (e *cEnv) eval(x ast.Expr) (Val, error) {
 		a, err := e.eval(n.X)
 		if err != nil {
 			return Val{}, err
+		}
+		if a.K == VUnk {
+			return Val{K: VUnk}, nil
 		}
 		if a.K == VList && !n.Slice3 {
 			lo, hi := int64(0), int64(len(a.T))
@@ -978,12 +995,18 @@ func (e *cEnv) eval(x ast.Expr) (Val, error) {
 			if err != nil {
 				return Val{}, err
 			}
+			if v.K == VUnk {
+				return Val{K: VUnk}, nil
+			}
 			lo = v.I
 		}
 		if n.High != nil {
 			v, err := e.eval(n.High)
 			if err != nil {
 				return Val{}, err
+			}
+			if v.K == VUnk {
+				return Val{K: VUnk}, nil
 			}
 			hi = v.I
 		}
@@ -1037,6 +1060,9 @@ func (e *cEnv) evalCall(n *ast.CallExpr) (Val, error) {
 				}
 				if a.K == VList {
 					return vInt(int64(len(a.T))), nil
+				}
+				if a.K == VUnk {
+					return Val{K: VUnk}, nil
 				}
 			}
 			return Val{}, undecidedf(n, "builtin %s", id.Name)
